@@ -168,32 +168,15 @@ def r3_trivia(c, facts):
         c.bad(R, 'lexeme-is_trivia-not-delegating', 'the Lexeme impl of Token no longer delegates is_trivia to TokenKind::is_trivia')
 
 
-def adopt(c, sub_rule, R):
-    """move the obligations recorded under another property's rule id to this property's rule id"""
-    sub = c.rules.pop(sub_rule, None)
-    if sub is None:
-        return
-    c.rules[R]['obligations'] += sub['obligations']
-    c.rules[R]['discharged'] += sub['discharged']
-    c.rules[R]['instances'] += sub['instances']
-    for v in c.violations:
-        if v['rule'] == sub_rule:
-            v['rule'] = R
-            v['key'] = v['key'].replace(sub_rule + ':', R + ':', 1)
-    for f in c.floors:
-        if f['rule'] == sub_rule:
-            f['rule'] = R
-
-
 def run(c, facts):
     c.run(r1_transparent, facts)
     R2 = c.rule('C05.R2', 'ORDER-FREE: declarations are tagged and declared before any traversal')
     c.run(lambda c: I.pre_tag(c, facts, R2))
-    c.run(lambda c: (c08.r4_order(c, facts), adopt(c, 'C08.R4', R2)))
+    c.shared(R2, c08.r4_order, 'C08.R4', facts)
     c.run(r3_trivia, facts)
     R4 = c.rule('C05.R4', 'SCOPE-DISC: innermost-first lookup, push/pop pairing, eager arguments (shared with C08)')
-    c.run(lambda c: (c08.r1_innermost(c, facts), adopt(c, 'C08.R1', R4)))
-    c.run(lambda c: (c08.r2_pairing(c, facts), adopt(c, 'C08.R2', R4)))
-    c.run(lambda c: (c08.r3_eager(c, facts), adopt(c, 'C08.R3', R4)))
+    c.shared(R4, c08.r1_innermost, 'C08.R1', facts)
+    c.shared(R4, c08.r2_pairing, 'C08.R2', facts)
+    c.shared(R4, c08.r3_eager, 'C08.R3', facts)
     R5 = c.rule('C05.R5', 'NAMING: implicit component names are injective over (module, node, instantiation) (shared with C09)')
-    c.run(lambda c: (c09.r2_scoped_id(c, facts), adopt(c, 'C09.R2', R5)))
+    c.shared(R5, c09.r2_scoped_id, 'C09.R2', facts)
